@@ -300,11 +300,16 @@ class Ctx:
         self.prop, self.tier, self.seed = prop, tier, seed
         self.rng = random.Random((hash_str(prop) << 32) ^ seed)
         self.thorough = tier == "thorough"
-        self.escalate = False
+        self.escalate = False   # a proof obligation of the property is broken: thorough budgets
+        self.soft = False       # only the generated-model tie is open: three times the quick budgets
         self.notes = []
 
     def n(self, quick, thorough):
-        return thorough if (self.thorough or self.escalate) else quick
+        if self.thorough or self.escalate:
+            return thorough
+        if self.soft:
+            return max(quick, min(thorough, 3 * quick))
+        return quick
 
 
 def hash_str(s):
